@@ -177,7 +177,7 @@ def run(ctx, res):
     rng = ctx.rng
     p8png, compress = _mods()
     res.rule = ('carts with random regions/versions; code: empty, 1 char, hello-world, _update60 sources, incompressible upper-case, '
-                'sizes straddling 0x3d00 raw (+-0..8) and compressed; x {bundled blank label, existing destination with random pixels}; '
+                'sizes straddling 0x3d00 raw (+-0..8) and compressed, very repetitive code of length 0xffff / 0x10000+ (length field boundary); x {bundled blank label, existing destination with random pixels}; '
                 'written PNG decoded by an independent decoder and by the real reader; .p8->.p8.png->.p8 conversion; '
                 'distinct non-trivial = distinct (code, version, label?)')
     blank = refpng.decode(open(os.path.join(REPO, 'pico8', 'game', 'empty_023.p8.png'), 'rb').read())[3]
@@ -202,6 +202,11 @@ def run(ctx, res):
         if c is not None:
             codes.append(c)
             res.count('tuned-compressed-size')
+    # very long, very repetitive code: fits the code area compressed, but its length needs more than the 16 bits of the length field
+    line = rng.choice([b'x=1 y=2 z=3 w=45\n', b'a=a+1 b=b+1 --\n', b'print("hello!")\n'])
+    for total in ([0xffff, 0x10000 + rng.randrange(0, 200)] if not ctx.thorough() else [0xfffe, 0xffff, 0x10000, 0x10001, 0x10054, 0x1ffff, 0x20010]):
+        codes.append((line * (total // len(line) + 1))[:total - 1] + b'\n')
+        res.count('length-field-boundary')
     for i, code in enumerate(codes):
         regs = {nm: U.rand_bytes(rng, sz) for nm, sz in U.REGION_SIZES}
         version = rng.choice([1, 8, 33, 41, 255]) if i else 5
